@@ -25,6 +25,8 @@ SHAPES = {
     "zc": dict(ps=[("s", "&'x str", '"s11"')], asy=False, borrowed=True, recv_lt=True),
     # return type borrowed from the dependency (elided lifetime)
     "zd": dict(ps=[], asy=False, from_deps=True),
+    # .. with a second elided lifetime nested inside the first
+    "ze": dict(ps=[], asy=False, from_deps=True, nested=True),
     "y0": dict(ps=[], asy=True), "y1": dict(ps=[("a", "i64", "11")], asy=True), "y2": dict(ps=[("a", "i64", "11"), ("b", "i64", "12")], asy=True),
     "ys": dict(ps=[("s", "&str", '"s11"')], asy=True),
 }
@@ -50,6 +52,10 @@ def enumerate_states(tier):
                 if tier != "thorough" and len(w) == 2 and b == "b2" and sel == "dyn":
                     continue
                 states.append(dict(key="d_%s_%s_%s" % ("_".join(w), sel, b), word=list(w), sel=sel, bounds=b))
+                # the impl blocks stamped out by macro_rules with the target type as a `$t:ty` fragment, next to free functions
+                # named like the methods (the delegating call must stay `Self::m(..)`)
+                if set(w) <= {"z0", "z1", "z2", "zs"} and b in ("b0", "b1"):
+                    states.append(dict(key="dt_%s_%s_%s" % ("_".join(w), sel, b), word=list(w), sel=sel, bounds=b, tyfrag=True))
     return states, len(states), dict(method_shapes=len(SHAPES), word_len=maxlen, bounds=list(BOUNDS))
 
 
@@ -62,6 +68,8 @@ def trait_method(x, i):
     d = SHAPES[x]
     if d.get("borrowed"):
         return "fn m%d<'x>(&%sself, %s) -> &'x str;" % (i, "'x " if d.get("recv_lt") else "", ", ".join("%s: %s" % (p[0], p[1]) for p in d["ps"]))
+    if d.get("nested"):
+        return "fn m%d(&self) -> &[&str];" % i
     if d.get("from_deps"):
         return "fn m%d(&self) -> &str;" % i
     if d.get("provided"):
@@ -81,6 +89,8 @@ def impl_fn(s, x, i, target):
         ps = ", ".join("%s: %s" % (p[0], p[1]) for p in d["ps"])
         dep_ty_b = dep_ty.replace("&", "&'x ", 1) if d.get("recv_lt") else dep_ty
         return "pub fn m%d<'x>(deps: %s, %s) -> &'x str { %s %s s }" % (i, dep_ty_b, ps, ev, " ".join("let _ = %s;" % v for v in depvals))
+    if d.get("nested"):
+        return "pub fn m%d(deps: %s) -> &[&str] { %s %s ::std::vec::Vec::leak(::std::vec![rt::tn(deps)]) }" % (i, dep_ty, ev, " ".join("let _ = %s;" % v for v in depvals))
     if d.get("from_deps"):
         return "pub fn m%d(deps: %s) -> &str { %s %s rt::tn(deps) }" % (i, dep_ty, ev, " ".join("let _ = %s;" % v for v in depvals))
     ps = "".join(", %s: %s" % (p[0], p[1]) for p in d["ps"])
@@ -112,15 +122,24 @@ def render(s):
     for i, x in enumerate(w):
         L.append("        " + trait_method(x, i))
     L.append("    }")
+    if s.get("tyfrag"):
+        for i, x in enumerate(w):
+            ps = "".join(", _%s: %s" % (p[0], p[1]) for p in SHAPES[x]["ps"])
+            L.append("    pub fn m%d<D: ?::core::marker::Sized>(_deps: &D%s) -> String { ::std::string::String::from(\"decoy\") }" % (i, ps))
     for t in ("X1", "X2"):
         L.append("    pub struct %s;" % t)
+        if s.get("tyfrag"):
+            L.append("    macro_rules! blk_%s { ($t:ty) => {" % t)
         L.append("    #[::entrait::entrait%s]" % ("(ref)" if dyn else ""))
         if at:
             L.append("    " + at)
-        L.append("    impl TrImpl for %s {" % t)
+        L.append("    impl TrImpl for %s {" % ("$t" if s.get("tyfrag") else t))
         for i, x in enumerate(w):
             L.append("        " + impl_fn(s, x, i, t))
         L.append("    }")
+        if s.get("tyfrag"):
+            L.append("    } }")
+            L.append("    blk_%s!(%s);" % (t, t))
     if stamped:
         L.append("    } }")
         L.append("    stamp!(a);")
@@ -140,7 +159,7 @@ def render(s):
             call = "Tr::m%d(&app%s)" % (i, "".join(", " + p[2] for p in d["ps"]))
             if d["asy"]:
                 call = "rt::block_on(%s)" % call
-            L.append('          { let r = %s; rt::out("%s_m%d", format!("{}##{}", rt::take(), r)); }' % (call, app, i))
+            L.append('          { let r = %s; rt::out("%s_m%d", format!("{}##{}", rt::take(), %s)); }' % (call, app, i, "r[0]" if d.get("nested") else "r"))
         L.append("        }")
     L += ["    }", "}"]
     return engine.Unit(key, "\n".join(L), 'rt::run("%s", %s::client);' % (key, key), s)
